@@ -504,6 +504,7 @@ pub fn all_seeds() -> Vec<Seed> {
     v.push(seed_collected());
     v.push(seed_sliding_window(5, 2));
     v.push(seed_sliding_window(8, 2));
+    v.extend(long_history_seeds());
     v
 }
 
@@ -542,6 +543,59 @@ pub fn seed_sliding_window(rounds: usize, keep: usize) -> Seed {
     let mut s = p.seed(&format!("sliding-window:{} rounds, keep {}", rounds, keep));
     s.predicted_cursor = None;
     s
+}
+
+/// A long history ("aged log"): `rounds` rounds of appends to a, b (small records, batches, one
+/// 1.5-block record per round so that files roll over every other round), with a truncated to its
+/// middle every other round, b emptied every third, f deleted and re-created every fourth and a
+/// restart every fifth. After 26 rounds: file numbers in the teens, a dozen GC passes, a dozen
+/// truncations per queue, f in its 7th incarnation, five restarts behind.
+pub fn seed_aged(rounds: usize) -> Seed {
+    let mut p = Planner::new();
+    p.push(Op::Create(QA)).push(Op::Create(QB)).push(Op::Create(QF));
+    for r in 0..rounds {
+        p.push(Op::app(QA, Pos::Auto, Sz::S3));
+        p.push(Op::app(QA, Pos::Auto, Sz::S5));
+        p.push(Op::app(QB, Pos::Auto, Sz::L));
+        p.push(Op::Append { q: QA, pos: Pos::Auto, sizes: vec![Sz::S1, Sz::S0, Sz::S5] });
+        if r % 2 == 1 {
+            p.push(Op::Trunc { q: QA, at: Tr::Mid });
+        }
+        if r % 3 == 2 {
+            p.push(Op::Trunc { q: QB, at: Tr::Last });
+        }
+        if r % 4 == 3 {
+            p.push(Op::Delete(QF)).push(Op::Create(QF)).push(Op::app(QF, Pos::Auto, Sz::S3));
+        }
+        if r % 5 == 4 {
+            p.push(Op::Reopen);
+        }
+    }
+    let mut s = p.seed(&format!("aged:{} rounds of append/truncate/delete+create/restart", rounds));
+    s.predicted_cursor = None;
+    s
+}
+
+/// Queue a hoards `n` small records (appended one call at a time, never truncated) while b rolls
+/// the files over: one queue with dozens of retained records spread over many files, positions
+/// far from 0; b keeps only its newest record.
+pub fn seed_hoarder(n: usize) -> Seed {
+    let mut p = Planner::new();
+    p.push(Op::Create(QA)).push(Op::Create(QB));
+    for i in 0..n {
+        p.push(Op::app(QA, Pos::Auto, if i % 3 == 0 { Sz::S5 } else { Sz::S1 }));
+        if i % 8 == 7 {
+            p.push(Op::app(QB, Pos::Auto, Sz::L));
+            p.push(Op::Trunc { q: QB, at: Tr::Mid });
+        }
+    }
+    let mut s = p.seed(&format!("hoarder:a retains {} records over many files", n));
+    s.predicted_cursor = None;
+    s
+}
+
+pub fn long_history_seeds() -> Vec<Seed> {
+    vec![seed_aged(11), seed_aged(26), seed_hoarder(40), seed_hoarder(130)]
 }
 
 pub fn sliding_window_seeds() -> Vec<Seed> {
